@@ -4,7 +4,9 @@
 #
 #   build.sh <flavour>      flavour in: real complex real-san complex-san sim fuzz all
 #
-# Always -DPOMEROL_VERIF (hooks on), never -DNDEBUG (pomerol's own asserts join the oracle).
+# Always -DPOMEROL_VERIF (hooks on).  The plain flavours (real, complex) are built like the library's own
+# release configuration (-O2 -DNDEBUG): values are compared there.  The sanitizer flavours keep every assert
+# (Eigen's bounds checks included) and add ASan+UBSan.
 # Nothing is kept in /tmp.  Cache: $VERIF_CACHE (default /verif/.cache)/<treehash>/<flavour>/
 set -euo pipefail
 FLAV="${1:-real}"
@@ -16,7 +18,7 @@ CACHE="$(cd "$CACHE" && pwd)"
 J="${VERIF_JOBS:-16}"
 
 if [ "$FLAV" = all ]; then
-  for f in real complex real-san complex-san sim; do "$0" "$f" >/dev/null; done
+  for f in real complex real-san complex-san; do "$0" "$f" >/dev/null; done
   "$0" real
   exit 0
 fi
@@ -26,8 +28,8 @@ MPILIB="-L/usr/lib/x86_64-linux-gnu/openmpi/lib -lmpi_cxx -lmpi"
 COMMON="-std=c++11 -Wno-unused-local-typedefs -Wno-deprecated-declarations -w -fopenmp -DPOMEROL_VERIF -DBOOST_MPI_DYN_LINK -DBOOST_SERIALIZATION_DYN_LINK"
 CXX=g++
 case "$FLAV" in
-  real)        OPT="-O2 -g1"; CPLX=0 ;;
-  complex)     OPT="-O2 -g1"; CPLX=1 ;;
+  real)        OPT="-O2 -g1 -DNDEBUG"; CPLX=0 ;;
+  complex)     OPT="-O2 -g1 -DNDEBUG"; CPLX=1 ;;
   real-san)    OPT="-O1 -g1 -fno-omit-frame-pointer -fsanitize=address,undefined -fno-sanitize-recover=undefined"; CPLX=0 ;;
   complex-san) OPT="-O1 -g1 -fno-omit-frame-pointer -fsanitize=address,undefined -fno-sanitize-recover=undefined"; CPLX=1 ;;
   sim)         OPT="-O1 -g1 -fno-omit-frame-pointer -fsanitize=address,undefined -fno-sanitize-recover=undefined"; CPLX=0 ;;
